@@ -31,7 +31,9 @@ def main():
         try:
             demo_path = (meta.get("demo_path") or "").split()[0] if (meta.get("demo_path") or "").split() else ""
             meta["demo_path"] = demo_path
-            demo_files = sorted(f for f in os.listdir(d) if f not in ("patch.diff", "meta.json") and not f.endswith(".txt"))
+            demo_files = sorted(f for f in os.listdir(d) if f not in ("patch.diff", "meta.json") and not f.endswith((".txt", ".log", ".out")))
+            if demo_path.endswith(".go") and [f for f in demo_files if f.endswith(".go")]:
+                demo_files = [f for f in demo_files if f.endswith(".go")]
             ov = []
             if overlay:
                 sh(["python3", "/tmp/mut-ov/mk.py", wt])
